@@ -281,11 +281,14 @@ func (rn *Runner) SetParams(ps PSet) {
 
 // ---------- world construction ----------
 
-func (rn *Runner) NewWorld(jail bool) {
+func (rn *Runner) NewWorld(jail bool) { rn.NewWorldN(6, jail) }
+
+// NewWorldN starts a fresh application with nAcct funded accounts (the last one poor).
+func (rn *Runner) NewWorldN(nAcct int, jail bool) {
 	if rn.W != nil {
 		rn.W.Close()
 	}
-	rn.W = NewWorld(6, 4, 1_000_000_000_000)
+	rn.W = NewWorld(nAcct, 4, 1_000_000_000_000)
 	rn.invalidate()
 	w := rn.W
 	// one poor account: everything but 50 of each denom goes to another account
@@ -532,6 +535,56 @@ func (rn *Runner) Corpus() {
 	rn.finish()
 }
 
+// RejectShares: rejected items with k = 1..9 challengers whose publish collateral leaves every
+// interesting remainder modulo k (0, 1, k/2, k/2+1, k-1; the quotient is odd so that a remainder of
+// exactly k/2 is rounding-sensitive too), two remainder classes per item (one per denom). The items
+// of a batch are open together and the second batch is still open when the first is paid out, so a
+// share that is not floor(collateral / k) shows in the module balance and in every challenger's balance.
+func (rn *Runner) RejectShares() {
+	rn.tag = "corpus:reject-shares"
+	rn.NewWorldN(12, false)
+	w := rn.W
+	base := PSet{Thr: "0.1", RF: "1", CP: 10 * time.Second, PP: 10 * time.Second, Rej: 20 * time.Second, Ver: 20 * time.Second,
+		PC: [2]int64{1000, 0}, IC: [2]int64{100, 3}}
+	publisher := w.AcctIDs[0]
+	challengers := w.AcctIDs[1:10]
+	var deadlines []int64
+	for _, ks := range [][]int{{1, 2, 3, 4, 5}, {6, 7, 8, 9}} {
+		for _, k := range ks {
+			var rems []int64
+			for _, r := range []int64{0, 1, int64(k / 2), int64(k/2 + 1), int64(k - 1)} {
+				dup := r >= int64(k)
+				for _, x := range rems {
+					dup = dup || x == r
+				}
+				if !dup {
+					rems = append(rems, r)
+				}
+			}
+			for i := 0; i < len(rems); i += 2 {
+				p := base
+				p.PC[0] = 101*int64(k) + rems[i]
+				p.PC[1] = 0
+				if i+1 < len(rems) {
+					p.PC[1] = 101*int64(k) + rems[i+1]
+				}
+				rn.SetParams(p)
+				u, _ := rn.Publish(publisher, 10, 0)
+				for j := 0; j < k; j++ {
+					rn.Inval(challengers[j], u, int64(j))
+				}
+			}
+		}
+		_, _, _ = rn.EndBlock() // threshold 0.1 * 10 shards: every item of the batch is challenging now
+		deadlines = append(deadlines, rn.W.H.Time.UnixNano()+10_000_000_000)
+		rn.Advance(3 * time.Second)
+	}
+	for _, d := range deadlines {
+		rn.BlockAt(ns(d)) // no proofs: the whole batch is rejected and paid out
+	}
+	rn.finish()
+}
+
 // ZeroThreshold: challenge threshold 0 sends an item to challenging without any challenger; with no
 // proofs it is rejected at the proof deadline with nobody to pay (C08 finding F2). On a tree
 // without the guard of notes/patches/C09-no-division-by-zero-challengers.patch that block end
@@ -704,6 +757,15 @@ func (rn *Runner) randMsg() {
 		rn.Publish(anyAcct(), 1+r.Intn(6), 0)
 		return
 	}
+	// pile on: many accounts challenge the same item, one index each
+	if cp := itemsWith(s, StChallenge); len(cp) > 0 && r.Chance(1, 10) {
+		it := cp[r.Intn(len(cp))]
+		k := 3 + r.Intn(len(w.AcctIDs)-3)
+		for j := 0; j < k; j++ {
+			rn.Inval(w.AcctIDs[j], it.URI, int64(r.Intn(it.N)))
+		}
+		return
+	}
 	x := r.Intn(65 + wInval)
 	switch {
 	case x < 22: // publish
@@ -826,7 +888,7 @@ func (rn *Runner) randMsg() {
 func (rn *Runner) RandomWorld(nOps int, k int) {
 	r := rn.R
 	rn.tag = fmt.Sprintf("gen:world-%d", k)
-	rn.NewWorld(r.Chance(1, 2))
+	rn.NewWorldN(10, r.Chance(1, 2))
 	rn.SetParams(rn.randParams())
 	start := rn.St.Evaluations
 	for rn.St.Evaluations-start < nOps {
@@ -852,6 +914,7 @@ func Run(prof Profile, seed int64, n int, outDir string) error {
 	rn := &Runner{R: emit.NewRand(seed), St: emit.NewStats(prof.Prop, seed, prof.Rule), Prof: prof,
 		CF: &emit.CasesFile{Import: prof.Import, Runner: "run", Type: "da_case"}}
 	rn.Corpus()
+	rn.RejectShares()
 	if zeroGuarded(prof) {
 		rn.ZeroThreshold()
 	} else {
